@@ -47,14 +47,14 @@ static const double nice_doubles[] = {0.0, -0.0, 1.0, -1.0, 0.5, -2.25, 1.0 / 3.
 static double pattern_double(uint64_t tok) {
     static const uint64_t mant[] = {0xFFFFFFFFFFFFFULL, 0x0ULL, 0x1ULL, 0x8000000000000ULL, 0x5555555555555ULL, 0xAAAAAAAAAAAAAULL,
                                     0xFFFFFFFFFFFFEULL, 0x7FFFFFFFFFFFFULL, 0x0000000000FFFULL, 0xFFFFF00000000ULL};
-    // doubles that reach edges of Digit.hpp / BigInt.hpp which random doubles almost never reach (harvested offline by
-    // coverage novelty over 2.4e9 candidates, tools/harvest_doubles.cpp)
+    // doubles that reach edges and comparison outcomes of Digit.hpp / BigInt.hpp which random doubles almost never reach
+    // (a libFuzzer corpus with value profile, produced offline: tools/README.md)
     static const uint64_t rare[] = {
 #include "rare_doubles.inc"
     };
-    if (tok % 23 == 5) {
+    if (tok % 7 == 5) {
         double r;
-        memcpy(&r, &rare[(tok / 23) % (sizeof(rare) / sizeof(rare[0]))], 8);
+        memcpy(&r, &rare[(tok / 7) % (sizeof(rare) / sizeof(rare[0]))], 8);
         return r;
     }
     uint64_t m = mant[tok % 10];
